@@ -10,9 +10,11 @@ import sys
 import time
 
 VERIF = os.path.dirname(os.path.dirname(os.path.abspath(__file__)))
-EVID = os.path.join(VERIF, 'evidence')
-REPLAY = os.path.join(VERIF, 'replay')
-SCRATCH = os.path.join(VERIF, '.scratch')
+# VERIF_OUT (dev only: dev/mutmatrix.py runs checks against scratch worktrees in parallel) redirects everything a run writes
+_OUT = os.environ.get('VERIF_OUT') or VERIF
+EVID = os.path.join(_OUT, 'evidence')
+REPLAY = os.path.join(_OUT, 'replay')
+SCRATCH = os.path.join(_OUT, '.scratch')
 KF_FILE = os.path.join(VERIF, 'KNOWN_FINDINGS.json')
 GUARD = 'TATSU_VERIF'
 
@@ -91,6 +93,8 @@ class Check:
         path = os.path.join(d, h + '.json')
         replay = dict(replay)
         replay.setdefault('property', self.prop)
+        replay.setdefault('seed', self.seed)
+        replay.setdefault('tier', self.tier)
         replay.setdefault('cmd', f'/venv/bin/python -m harness.replay {path}')
         with open(path, 'w') as f:
             json.dump(replay, f, indent=1, sort_keys=True, default=str)
